@@ -65,18 +65,37 @@ fn run_slices(ctx: &Ctx) -> CheckResult {
     let strict = ctx.api.caps().strict;
     for va in ctx.api.variants() {
         let v = va.v();
-        let pool = ctx.sample_values(&format!("slicepool/{}", v.name), ctx.tier.pick(3, 20), &proptest::collection::vec(any::<u8>(), 2 * v.size() + 1));
+        let mut pool = ctx.sample_values(&format!("slicepool/{}", v.name), ctx.tier.pick(3, 20), &proptest::collection::vec(any::<u8>(), 2 * v.size() + 5));
+        // structured contents a lenient conversion could mistake for a hash: the text forms of a
+        // value (both prefixes, both cases), a value twice, a value followed by padding, digits only
+        for mut base in ctx.sample_values(&format!("slicebase/{}", v.name), ctx.tier.pick(2, 8), &proptest::collection::vec(any::<u8>(), v.size())) {
+            if strict {
+                base[0] %= 49;
+                base[v.ck] %= 170;
+            }
+            for with in [false, true] {
+                let t = vmodel::text::encode(v, &base, with);
+                pool.push(t.to_ascii_lowercase());
+                pool.push(t);
+            }
+            pool.push([&base[..], &base[..]].concat());
+            pool.push([&base[..], &vec![0u8; v.size() + 4][..]].concat());
+            pool.push([&vec![0u8; 4][..], &base[..]].concat());
+        }
+        pool.push(vec![b'0'; 2 * v.size() + 4]);
         for p in pool {
-            for len in 0..=2 * v.size() {
-                if let Err(m) = case_slice_len(va, &p[..len], strict, &st) {
-                    return Err(ctx.violation("slices", m, json!({"variant": v.name, "bytes": hex(&p[..len])})));
+            for len in 0..=p.len() {
+                for piece in [&p[..len], &p[p.len() - len..]] {
+                    if let Err(m) = case_slice_len(va, piece, strict, &st) {
+                        return Err(ctx.violation("slices", m, json!({"variant": v.name, "bytes": hex(piece)})));
+                    }
                 }
             }
-            ctx.ev.borrow_mut().nontrivial_enumerated += 2 * v.size() as u64;
+            ctx.ev.borrow_mut().nontrivial_enumerated += 2 * p.len() as u64;
         }
-        st.sample(|| json!({"check": "slices", "variant": v.name, "lengths": format!("0..={}", 2 * v.size())}));
+        st.sample(|| json!({"check": "slices", "variant": v.name, "lengths": format!("0..={}", 2 * v.size() + 4)}));
     }
-    ctx.exhaustive("all slice lengths 0..=2N");
+    ctx.exhaustive("all slice lengths 0..=2N+4 (prefixes and suffixes of random bytes, of the text forms of a value, of a value twice / padded)");
     Ok(())
 }
 
